@@ -1231,8 +1231,15 @@ class Channel(ClosingContextManager):
         self.logger.log(level, "[chan " + self._name + "] " + msg, *args)
 
     def _event_pending(self):
-        self.event.clear()
-        self.event_ready = False
+        self.lock.acquire()
+        try:
+            self.event_ready = False
+            # Closing the channel sets the event for good (see _set_closed):
+            # clearing it afterwards would strand _wait_for_event forever.
+            if not self.closed:
+                self.event.clear()
+        finally:
+            self.lock.release()
 
     def _wait_for_event(self):
         self.event.wait()
